@@ -101,6 +101,9 @@ type binding struct {
 	isArg        bool
 	isVar        bool
 	inStash      bool
+	// noStash: an anonymous compiler temporary that is initialised in place on the stack; it stays there even when
+	// all bindings of the scope live in the stash (dynamic scope)
+	noStash bool
 }
 
 func (b *binding) getAccessPointsForScope(s *scope) *[]int {
@@ -627,7 +630,7 @@ func (s *scope) finaliseVarAlloc(stackOffset int) (stashSize, stackSize int) {
 		if b.name == thisBindingName {
 			this = true
 		}
-		if allInStash || b.inStash {
+		if (allInStash || b.inStash) && !b.noStash {
 			for scope, aps := range b.accessPoints {
 				var level uint32
 				for sc := scope; sc != nil && sc != s; sc = sc.outer {
@@ -709,6 +712,9 @@ func (s *scope) finaliseVarAlloc(stackOffset int) (stashSize, stackSize int) {
 			}
 			stashIdx++
 		} else {
+			if allInStash {
+				stashIdx++ // the stash slots of a dynamic scope are addressed by binding index: keep them aligned
+			}
 			var idx int
 			if !this {
 				if i < s.numArgs {
